@@ -39,15 +39,15 @@ impl<C: Config, Q: Query> Snapshot<C, Q> {
         }
 
         // check if the query was called with repairing firewall and
-        // has pending backward projection to do
+        // has pending backward projection to do. A pending backward
+        // projection stays pending until it has been performed, whatever the
+        // epoch it was recorded in: the epoch that recorded it may have ended
+        // before any firewall-repairing caller came by.
         if matches!(
             caller.kind(),
             CallerKind::RepairFirewall
                 | CallerKind::BackwardProjectionPropagation
-        ) && self
-            .pending_backward_projection()
-            .await
-            .is_some_and(|x| x.0 == caller.timestamp())
+        ) && self.pending_backward_projection().await.is_some()
         {
             return FastPathResult::ToSlowPath(SlowPath::BaackwardProjection);
         }
